@@ -106,7 +106,6 @@ func (tnc *TNC) Listen() (ln net.Listener, err error) {
 						eofChan:    make(chan struct{}),
 						isTCP:      tnc.isTCP,
 					}
-					tnc.connected = true
 					incoming <- tnc.data
 					targetcall = ""
 				}
